@@ -50,6 +50,10 @@ def profile(h=0):
         p.extra_tag_vals = [f"v{i}" for i in range(25)] + ["12", "1.5", "x" * 300]
     if h % 20 == 17:  # instants at and around the epoch (timestamp 0.0, negative timestamps) and year 1900
         p.grid = gen.EPOCH_GRID
+    if h % 100 == 49:  # thousands of rows (thorough tier only reaches h = 49): chunk sizes 500 / 1000 / 1024 / 2048
+        p.max_rows = 3000
+        p.max_time_probes = 20
+        p.min_ops, p.max_ops = 2, 4
     if h % 20 == 7:  # stored instants later than the wall clock (year 2200) next to points stamped at insertion
         p.grid = gen.FUTURE_GRID
     if h % 4 == 3:  # writes directly follow writes; CSV state is read from the file, not through the handle
